@@ -232,7 +232,7 @@ CHECKS = {
         "level_note": "interleavings are sampled; goroutines left inside wharf/pwr after return are counted in the evidence (coverage.extra), not judged.",
         "rule": ("rapid draws (tree, damages, consumer, cancellation, GOMAXPROCS). Non-trivial: a damaged directory validated with a cancelled "
                  "context or a consumer that failed. Distinct: SHA-1 of the spec."),
-        "assumptions": ["a case that needs more than 20s (30s for the >1024-wound stage) is treated as a hang candidate; normal cases take milliseconds to ~1s"],
+        "assumptions": ["a case that needs more than 60s (120s for the >1024-wound stage) is treated as a hang candidate; normal cases take milliseconds to ~1s"],
         "required_classes": {"quick": ["cancel:before-start", "cancel:in-callback", "cancel:after-delay", "consumer:failfast", "consumer:heal-partial", "tree:>1024-entries"],
                              "thorough": ["cancel:before-start", "cancel:in-callback", "cancel:after-delay", "consumer:failfast", "consumer:heal-partial", "consumer:woundsfile-unwritable", "tree:>1024-entries", "many-damage:last-file"]},
         "stages": [rapid("terminate", "TestProp", 4800, 48000, qs=16, ts=16, qt=600, tt=5400, schedule_dependent=True),
@@ -325,7 +325,7 @@ CHECKS = {
                        "test -fuzz on the uncompressed byte stream for 4 targets, inputs violating the stated precondition discarded and counted. "
                        "Targets: patcher.New+Resume+Commit (fresh bowl in a temp dir, dry bowl), rediff.NewContext+Optimize, ReadSignature+"
                        "ComputeHashInfo+ValidateAsError, OverlayPatchContext.Patch onto a temp file. Oracle: error or nil, never a panic "
-                       "(recover in-process, journal for goroutine panics), returns within 20s (watchdog + confirmation run)."),
+                       "(recover in-process, journal for goroutine panics), returns within 60s (watchdog + confirmation run)."),
         "level_note": "native fuzzing cannot be pinned to a seed; its saved crashers are the reproducible unit (they replay through ./check C10 --replay).",
         "rule": ("evaluations = streams fed to a target. Non-trivial: a truncated or mutated stream whose mutation lies behind the containers (the "
                  "target must handle ops to reach it). Distinct: enumerated prefixes by construction, mutations by SHA-1 of the spec."),
